@@ -36,6 +36,16 @@ def self_reads(repo: Repo, ci: ClassInfo, fn: ast.AST, depth: int = 1, selfname:
             if isinstance(n.ctx, ast.Store):
                 stored.add(n.attr)
     for n in walk_local(fn):
+        # identity / type uses of bare `self` do not read any field
+        if isinstance(n, ast.Compare) and all(isinstance(o, (ast.Is, ast.IsNot)) for o in n.ops):
+            for x in [n.left] + n.comparators:
+                if isinstance(x, ast.Name):
+                    attr_bases.add(id(x))
+        if isinstance(n, ast.Call) and isinstance(n.func, ast.Name) and n.func.id in ('type', 'isinstance', 'id', 'super'):
+            for x in n.args:
+                if isinstance(x, ast.Name):
+                    attr_bases.add(id(x))
+    for n in walk_local(fn):
         # super().m(...)  -> the overridden method's reads
         if isinstance(n, ast.Call) and isinstance(n.func, ast.Attribute) and isinstance(n.func.value, ast.Call) \
                 and isinstance(n.func.value.func, ast.Name) and n.func.value.func.id == 'super':
